@@ -205,6 +205,13 @@ def gen_case_the(rng, tier):
     c['sel'] = [['var', k] for k in sel]
     c['form'] = 'entity' if len(sel) == 1 and rng.random() < 0.5 else 'set_of'
     c['quant'] = 'the'
+    if rng.random() < 0.2:
+        # the objects compare EQUAL by value (a user __eq__ over the attributes a, b) although they are distinct: two value-equal
+        # objects that both qualify are two solutions
+        c['value_equal'] = True
+        for o in c['heap']:
+            o[0], o[1] = rng.randint(0, 1), rng.randint(0, 1)
+            o[8] = o[0] >= 2
     if rng.random() < 0.15:
         # PREDICATE FORM handed to the quantifier directly: the(P(From(domain), a=v[, b=w])) - the term is already quantified when
         # the(...) receives it; it still has to return THE solution or raise
@@ -906,6 +913,39 @@ def gen_case_membership_disjunction(rng, tier=None):
     if rng.random() < 0.3:
         cond = ['and', cond, ['cmp', '>=', ['map', ['f', F['b']], ['var', 1]], ['lit', 0]], 'fn']
     return dict(heap=heap, doms=[[1, dom]], binders=[['var', 1]], sel=[['var', 1]], cond=cond, form=rng.choice(['entity', 'set_of']))
+
+
+def gen_case_falsy_owner(rng, tier=None):
+    """attribute chains THROUGH a falsy object (the domain objects define __bool__: those with a == 0 are falsy): x.peer.a compared,
+    selected, used in a membership test - the owner of an attribute is an object like any other, whatever bool() says about it"""
+    nobj = rng.randint(3, 6)
+    heap = gen_heap(rng, nobj, True)
+    for o in heap:
+        o[0], o[1] = rng.choice([0, 0, 1, 2]), rng.randint(0, 2)
+        o[7] = {'o': rng.randrange(nobj)}
+        o[8] = o[0] >= 2
+    nv = rng.choice([1, 1, 2])
+    keys = list(range(1, nv + 1))
+    doms = [[k, rng.sample(range(nobj), rng.randint(2, min(4, nobj)))] for k in keys]
+    via = lambda k, f=None: ['map', ['f', F[f or rng.choice('ab')]], ['map', ['f', F['peer']], ['var', k]]]
+    k = rng.choice(keys)
+    r = rng.random()
+    if r < 0.4:
+        cond = ['cmp', rng.choice(OPS), via(k), ['lit', rng.randint(0, 2)]]
+    elif r < 0.6:
+        cond = ['cmp', rng.choice(['==', '!=']), via(k), ['map', ['f', F[rng.choice('ab')]], ['var', rng.choice(keys)]]]
+    elif r < 0.8:
+        cond = ['in', via(k), ['map', ['f', F['pair']], ['var', rng.choice(keys)]]]
+    else:
+        cond = ['or', ['cmp', '==', via(k, 'a'), ['lit', rng.randint(0, 1)]], ['cmp', '>', via(k, 'b'), ['lit', 1]], 'fn']
+    if rng.random() < 0.3:
+        cond = ['not', cond, 'fn']
+    sel = [['var', kk] for kk in keys]
+    if rng.random() < 0.5:
+        sel.append(via(rng.choice(keys)))
+    rng.shuffle(sel)
+    return dict(heap=heap, doms=doms, binders=[['var', kk] for kk in keys], sel=sel, cond=cond if rng.random() < 0.9 else None,
+                form='set_of', falsy_objects=True)
 
 
 def gen_pair(rng, tier):
